@@ -9,6 +9,7 @@
   `defer` unlock = held to the end of the function).
 -/
 import MqttVerif.Generated.Facts
+import MqttVerif.Proofs.Vocab
 
 namespace Mqtt.C11.Tie
 open Mqtt
@@ -21,12 +22,12 @@ theorem handlers_called_without_locks :
     user code) only while holding its own mutex exclusively, i.e. atomically with the update (`Handle`) or the read
     (`Connect`) of `RetryClient.handler`: whenever that mutex is free, the current base client carries the registered
     handler. (A snapshot taken under the lock and installed after releasing it could overwrite a newer handler.) -/
-theorem handler_forwarded_under_mu :
+theorem handler_forwarded_under_mu : Vocab.known Vocab.callbackTie = true →
     (Generated.callbackCalls.all (fun c => !(c.2.2.1 == "sethandler") || c.2.2.2.contains "RetryClient.mu")) = true ∧
     1 ≤ (Generated.callbackCalls.filter (fun c => c.2.2.1 == "sethandler")).length := by decide +kernel
 
 /-- the state callback runs holding at most `muConnecting` -/
-theorem connstate_under_muConnecting_only :
+theorem connstate_under_muConnecting_only : Vocab.known Vocab.callbackTie = true →
     (Generated.callbackCalls.all (fun c => !(c.2.2.1 == "connstate") ||
       c.2.2.2.all (fun m => m == "BaseClient.muConnecting" || m == "BaseClient.muConnecting:r"))) = true := by decide +kernel
 
